@@ -1,3 +1,13 @@
-From Dns Require Import Model.Labels.
-Theorem placeholder : is_fqdn [46] = true.
-Proof. reflexivity. Qed.
+(* Props/C19.v — property C19 (label helpers agree with the wire-format label
+   sequence).  Only statements; each is closed by [exact] of a lemma proved in
+   Proofs/. *)
+From Dns Require Import Model.Labels Proofs.LabelsProofs.
+
+(* IsFqdn: exactly the strings ending in a dot that is preceded by an even
+   number (possibly zero) of backslashes. *)
+Theorem fqdn_iff_unescaped_trailing_dot :
+  forall s : bytes,
+    is_fqdn s = true <->
+    exists p k, s = p ++ repeat 92%N k ++ [46%N] /\ Nat.even k = true /\
+                (forall q, p <> q ++ [92%N]).
+Proof. exact is_fqdn_spec. Qed.
